@@ -1,8 +1,187 @@
-//! C16(a): long histories of one operation kind with attributable draws.
+//! C16(a): long histories of one operation kind in Tagged RNG mode. Every draw is unique by
+//! construction, so "fresh" is decided operation by operation: the nonce / salt / ephemeral
+//! key / key bytes of each output must be (the spec function of) a draw made inside that very
+//! call, and the set of all of them over the history has no repeats.
 
+use std::collections::BTreeSet;
+
+use crate::backend::{Bk, Claims, Foot, KeyH, Kind, Out, Purp, PwParams, backend};
+use crate::faults::{TokParts, split_paserk};
 use crate::plan::HistOp;
-use crate::world::World;
+use crate::refimpl;
+use crate::rngsvc::RngSpec;
+use crate::world::{World, nonce_len, tag_len};
 
-pub fn run_history(w: &mut World, _node: usize, _op: HistOp, _count: u32, _tag: u64) {
-    w.stats.bump("skipped:history-not-implemented");
+fn find_key(w: &mut World, node: usize, kind: Kind) -> Option<(usize, KeyH)> {
+    let fam = w.node_bk(node)?.family();
+    let slot = *w.keys.iter().find(|(_, r)| r.kind == kind && r.family == fam && r.expect_valid == Some(true))?.0;
+    let h = w.node_key(node, slot)?;
+    Some((slot, h))
+}
+
+pub fn run_history(w: &mut World, node: usize, op: HistOp, count: u32, tag: u64) {
+    let Some(bk) = w.node_bk(node) else { return };
+    let be = backend(bk);
+    let f = bk.family();
+    let opname = format!("history-{op:?}").to_lowercase();
+    let mut seen: BTreeSet<Vec<u8>> = BTreeSet::new();
+    let mut sigs: BTreeSet<Vec<u8>> = BTreeSet::new();
+    let msg = b"the same message every time".to_vec();
+    let local = find_key(w, node, Kind::Local);
+    let secret = find_key(w, node, Kind::Secret);
+    let pke_pub = find_key(w, node, Kind::PkePublic);
+    let mut done = 0u32;
+    for i in 0..count {
+        let spec = RngSpec::Tagged { tag: crate::prng::mix(tag, "hist", i as u64) };
+        let mut fresh: Vec<Vec<u8>> = Vec::new(); // the per-output random fields
+        let mut attributable = true;
+        let mut why = String::new();
+        match op {
+            HistOp::Encrypt => {
+                let Some((_, k)) = &local else { return };
+                w.arm(&spec, None);
+                let r = be.seal(Purp::Local, k, &Claims::Raw(msg.clone()), &Foot::Unit, b"", None, i % 2 == 0);
+                let draws = w.disarm();
+                let Out::Ok(t) = r else {
+                    w.violate("C01", "seal-failed", bk, "seal-local", "", format!("history step {i}: {}", r.class()));
+                    return;
+                };
+                let Some(p) = TokParts::parse(&t) else { return };
+                let nl = nonce_len(f, Purp::Local);
+                if p.payload.len() < nl {
+                    return;
+                }
+                let n = p.payload[..nl].to_vec();
+                attributable = match f {
+                    1 => draws.iter().any(|d| d.bytes.len() >= 32 && refimpl::synthetic_nonce(1, &d.bytes[..32], &msg) == n),
+                    2 => draws.iter().any(|d| d.bytes.len() >= 24 && refimpl::synthetic_nonce(2, &d.bytes[..24], &msg) == n),
+                    _ => draws.iter().any(|d| d.bytes == n),
+                };
+                why = format!("token nonce {} is not (the spec function of) a draw of this call", hex::encode(&n));
+                fresh.push(n);
+            }
+            HistOp::Sign => {
+                let Some((_, k)) = &secret else { return };
+                w.arm(&spec, None);
+                let r = be.seal(Purp::Public, k, &Claims::Raw(msg.clone()), &Foot::Unit, b"", None, i % 2 == 0);
+                let draws = w.disarm();
+                let Out::Ok(t) = r else {
+                    w.violate("C01", "seal-failed", bk, "seal-public", "", format!("history step {i}: {}", r.class()));
+                    return;
+                };
+                let Some(p) = TokParts::parse(&t) else { return };
+                let tl = tag_len(f, Purp::Public);
+                let sig = p.payload[p.payload.len().saturating_sub(tl)..].to_vec();
+                let randomized = bk == Bk::V1 || bk == Bk::V3Lc;
+                if randomized {
+                    if draws.is_empty() {
+                        attributable = false;
+                        why = "randomized signature made without any draw".into();
+                    }
+                    if !sigs.insert(sig) {
+                        w.violate("C16", "signature-randomness-reused", bk, &opname, "", format!("two signatures of the same message are identical at history step {i}"));
+                        return;
+                    }
+                } else {
+                    sigs.insert(sig);
+                    if sigs.len() != 1 {
+                        w.violate("C03", "deterministic-signature-varies", bk, &opname, "", "a deterministic signature scheme produced two different signatures for the same key and message".into());
+                        return;
+                    }
+                }
+            }
+            HistOp::GenLocal | HistOp::GenSecret => {
+                let kind = if op == HistOp::GenLocal { Kind::Local } else { Kind::Secret };
+                w.arm(&spec, None);
+                let r = be.key_random(kind);
+                let draws = w.disarm();
+                let Out::Ok(k) = r else {
+                    w.stats.bump("history:keygen-failed");
+                    continue;
+                };
+                let Out::Ok(raw) = be.key_raw(kind, &k) else { return };
+                w.check_key_draws(bk, kind, &raw, &draws);
+                fresh.push(if f == 1 && kind == Kind::Secret { raw } else { raw[..raw.len().min(48)].to_vec() });
+            }
+            HistOp::PieWrap => {
+                let Some((_, k)) = &local else { return };
+                w.arm(&spec, None);
+                let r = be.wrap_pie(Kind::Local, k, k);
+                let draws = w.disarm();
+                let Out::Ok(t) = r else {
+                    w.violate("C05", "wrap-failed", bk, "wrap-pie-local", "", format!("history step {i}: {}", r.class()));
+                    return;
+                };
+                let Some((_, d)) = split_paserk(&t) else { return };
+                let off = if f == 1 || f == 3 { 48 } else { 32 };
+                let n = d[off..off + 32].to_vec();
+                attributable = draws.iter().any(|x| x.bytes == n);
+                why = "PIE nonce is not a draw of this call".into();
+                fresh.push(n);
+            }
+            HistOp::PwWrap => {
+                let Some((_, k)) = &local else { return };
+                let params = if f == 1 || f == 3 { PwParams::Iter(1) } else { PwParams::Argon(8192, 1, 1) };
+                w.arm(&spec, None);
+                let r = be.wrap_pw(Kind::Local, k, b"pw", &params);
+                let draws = w.disarm();
+                let Out::Ok(t) = r else {
+                    w.violate("C05", "wrap-failed", bk, "wrap-pw-local", "", format!("history step {i}: {}", r.class()));
+                    return;
+                };
+                let Some((_, d)) = split_paserk(&t) else { return };
+                let (sl, nl, off) = if f == 1 || f == 3 { (32, 16, 36) } else { (16, 24, 32) };
+                let salt = d[..sl].to_vec();
+                let n = d[off..off + nl].to_vec();
+                let si = draws.iter().position(|x| x.bytes == salt);
+                let ni = draws.iter().position(|x| x.bytes == n);
+                attributable = si.is_some() && ni.is_some() && si != ni;
+                why = "PBKW salt/nonce are not two distinct draws of this call".into();
+                fresh.push(salt);
+                fresh.push(n);
+            }
+            HistOp::PkeSeal => {
+                let (Some((_, k)), Some((_, to))) = (&local, &pke_pub) else { return };
+                w.arm(&spec, None);
+                let r = be.seal_key(k, to);
+                let draws = w.disarm();
+                let t = match r {
+                    Out::Ok(t) => t,
+                    other => {
+                        w.violate("C05", "wrap-failed", bk, "wrap-pke-local", "", format!("history step {i}: {}", other.class()));
+                        return;
+                    }
+                };
+                let Some((_, d)) = split_paserk(&t) else { return };
+                let e = match f {
+                    1 => d.get(80..).map(|x| x.to_vec()),
+                    3 => d.get(48..97).map(|x| x.to_vec()),
+                    _ => d.get(32..64).map(|x| x.to_vec()),
+                };
+                let Some(e) = e else { return };
+                attributable = match f {
+                    2 | 4 => draws.iter().any(|x| x.bytes.len() == 32 && refimpl::x25519_base(&x.bytes[..].try_into().unwrap()).map(|p| p.to_vec()) == Some(e.clone())),
+                    3 => draws.iter().any(|x| x.bytes.len() == 48 && refimpl::p384_public_of_scalar(&x.bytes) == Some(e.clone())),
+                    _ => !draws.is_empty(),
+                };
+                why = "PKE ephemeral public key is not the base-point multiple of a draw of this call".into();
+                fresh.push(e);
+            }
+        }
+        if !attributable {
+            w.violate("C16", "nonce-not-from-fresh-draw", bk, &opname, "", format!("history step {i}: {why}"));
+            return;
+        }
+        for x in fresh {
+            if !seen.insert(x) {
+                w.violate("C16", "nonce-reused", bk, &opname, "", format!("history step {i}: a nonce/salt/ephemeral key/key repeats an earlier one although every draw is unique"));
+                return;
+            }
+        }
+        done += 1;
+    }
+    w.stats.evaluations += done as u64;
+    w.stats.add(&format!("op:history:{}:{op:?}", bk.name()), done as u64);
+    w.stats.distinct.insert(format!("history|{}|{op:?}", bk.name()));
+    w.log.update_str(&format!("history {} {op:?} {done} ok, {} distinct fresh values", bk.name(), seen.len()));
 }
